@@ -54,7 +54,10 @@ fn frame_bytes(cl: &mut Client, f: &F) -> Vec<u8> {
         F::Opn { renew, pv } => cl.open(*renew, *pv).1,
         F::Msg { kind, cid_ok } => {
             if !*cid_ok { cl.sc.set_secure_channel_id(real_cid + 5); }
-            let b = if *kind == 0 { cl.get_endpoints().1 } else { cl.read(1).1 };
+            let b = if *kind == 2 {
+                use opcua::types::*;
+                cl.stale(GetEndpointsRequest { request_header: RequestHeader::dummy(), endpoint_url: UAString::from(URL), locale_ids: None, profile_uris: None }.into())
+            } else if *kind == 0 { cl.get_endpoints().1 } else { cl.read(1).1 };
             cl.sc.set_secure_channel_id(real_cid);
             b
         }
@@ -107,6 +110,7 @@ fn run(frames: &[F]) -> Vec<i128> {
         let mut out = Vec::new();
         for f in frames {
             let bytes = frame_bytes(&mut cl, f);
+            if std::env::var("C15_DEBUG").is_ok() { eprintln!("frame {:?} server last_received {} client seq {}", term(f), conn.t.verif_last_received_sequence_number(), cl.seq); }
             match guarded(|| conn.feed(&bytes)) {
                 Err(_) => { out.push(-2); break; }
                 Ok(Step::NeedMore) => { out.push(-3); break; }
@@ -165,6 +169,10 @@ impl Property for P {
             vec![H, F::Opn { renew: false, pv: 1000 }, M], vec![H, F::Opn { renew: false, pv: 1000 }, C], vec![H, F::Opn { renew: false, pv: 1000 }, R, M],
             vec![H, F::Opn { renew: false, pv: 1000 }, O, M, M], vec![H, O, F::Opn { renew: true, pv: 1000 }, M], vec![H, O, F::Opn { renew: false, pv: 1000 }, M, C],
             vec![H, F::Opn { renew: true, pv: 1000 }, M], vec![H, F::Opn { renew: false, pv: 1001 }, M],
+            // a replayed sequence number is refused: straight away, after a renewal, after a second issue, before any chunk
+            vec![H, O, M, F::Msg { kind: 2, cid_ok: true }], vec![H, O, M, R, F::Msg { kind: 2, cid_ok: true }], vec![H, O, M, M, R, R, F::Msg { kind: 2, cid_ok: true }, M],
+            vec![H, O, M, O, F::Msg { kind: 2, cid_ok: true }], vec![H, F::Msg { kind: 2, cid_ok: true }], vec![H, O, F::Msg { kind: 2, cid_ok: true }],
+            vec![H, O, R, F::Msg { kind: 2, cid_ok: false }],
             vec![H, O, R, M, O, M, C],
             vec![H, O, F::Msg { kind: 0, cid_ok: false }, M],
             vec![H, O, F::Clo { cid_ok: false }, M],
@@ -196,7 +204,7 @@ impl Property for P {
                     1 | 2 => F::Opn { renew: r.chance(1, 2), pv: if r.chance(1, 6) { 1 } else if r.chance(1, 5) { 1000 + r.below(2) as u32 } else { 0 } },
                     3 => F::Clo { cid_ok: r.chance(4, 5) },
                     4 => F::Ack,
-                    _ => F::Msg { kind: r.below(2) as u8, cid_ok: r.chance(9, 10) },
+                    _ => F::Msg { kind: if r.chance(1, 7) { 2 } else { r.below(2) as u8 }, cid_ok: r.chance(9, 10) },
                 } };
             frames.push(f);
         }
